@@ -23,6 +23,8 @@ TABLE = {
     "C22": (["types"], 30, 400, 40, False),
 }
 SUB = {"C22": "types"}
+# properties that also get the spec -> implementation direction (every transition of the bounded DbModel replayed)
+MBT = {"C08", "C09", "C10", "C11", "C13"}
 
 
 def mc_db(tier):
@@ -74,6 +76,9 @@ def run(prop, tier):
         totals = dbcheck.run_profiles(prop, tier, profiles, rq, rt, ops, verdict, work, sub=sub)
         if prop == "C17":
             path_family(tier, verdict, work, totals)
+        if prop in MBT:
+            import dbmbt
+            dbmbt.run(prop, tier, verdict, work, totals)
         dbcheck.evidence(prop, tier, totals, t0, verdict, mc=mc)
         return verdict.exit_code()
     finally:
